@@ -91,6 +91,19 @@ def ttable_words(decrypt):
 LANE_FN = {'rx_vec_i128_x': 0, 'rx_vec_i128_y': 1, 'rx_vec_i128_z': 2, 'rx_vec_i128_w': 3}
 
 
+def arg_id(a):
+    """declaration id of a by-value argument (looks through the copy construction of class-type vectors)"""
+    a = strip_all(a)
+    while a['k'] in ('Cast', 'Construct'):
+        if a['k'] == 'Cast':
+            a = strip_all(a['e'])
+        elif len(a.get('a', [])) == 1:
+            a = strip_all(a['a'][0])
+        else:
+            break
+    return a.get('id')
+
+
 def table_values(F, q):
     g = F.glob(q)
     init = g.get('init')
@@ -115,7 +128,7 @@ def lookups_of(F, fq, table_q):
             r = strip_all(x['r'])
             while r['k'] == 'Cast':
                 r = r['e']
-            if r['k'] == 'Call' and r.get('name') in LANE_FN and strip_all(r['a'][0]).get('id') == in_id:
+            if r['k'] == 'Call' and r.get('name') in LANE_FN and arg_id(r['a'][0]) == in_id:
                 svar[strip_all(x['l'])['id']] = LANE_FN[r['name']]
         if x['k'] == 'Decl':
             for d in x['d']:
@@ -123,7 +136,7 @@ def lookups_of(F, fq, table_q):
                     r = strip_all(d['init'])
                     while r['k'] == 'Cast':
                         r = r['e']
-                    if r['k'] == 'Call' and r.get('name') in LANE_FN and strip_all(r['a'][0]).get('id') == in_id:
+                    if r['k'] == 'Call' and r.get('name') in LANE_FN and arg_id(r['a'][0]) == in_id:
                         svar[d['id']] = LANE_FN[r['name']]
     if len(svar) != 4 or sorted(svar.values()) != [0, 1, 2, 3]:
         raise AnalysisBroken('%s: the four input lanes are not each read once (%s)' % (fq, sorted(svar.values())))
@@ -176,8 +189,10 @@ def lookups_of(F, fq, table_q):
     key_ok = False
     if len(rets) == 1:
         r = strip_all(rets[0]['e'])
+        while r['k'] == 'Construct' and len(r.get('a', [])) == 1:
+            r = strip_all(r['a'][0])
         if r['k'] == 'Call' and r.get('name') in ('_mm_xor_si128', 'rx_xor_vec_i128'):
-            ids = {strip_all(a).get('id') for a in r['a']}
+            ids = {arg_id(a) for a in r['a']}
             key_ok = key_id in ids and len(ids) == 2
     return f, looks, key_ok
 
